@@ -523,10 +523,10 @@ def run_shard(cfg):
                             continue
                         c = dict(case, alive=hold, twins=twin_mode, format=fmt, options=opt)
                         roundtrip(rec, c, build, hold, twin_mode, fmt, opt, fresh_batch if (not hold and twin_mode == "none") else None)
-    check_after_earlier_calls(rec, cfg)
     # (D) the same payloads in a fresh process
     if fresh_batch:
         run_fresh(rec, cfg, fresh_batch)
+    check_after_earlier_calls(rec, cfg)
     rec.bound = {"max_nodes": cfg["n"], "strings": len(STRINGS), "origin_kinds": len(origin_kinds()), "formats": len(FORMATS)}
     return rec.result()
 
